@@ -21,7 +21,7 @@ BUDGET = {'quick': 120, 'thorough': 900}
 
 
 def gen_cases(tier, seed):
-    n = {'quick': 4000, 'thorough': 1000000}[tier]
+    n = {'quick': 20000, 'thorough': 1000000}[tier]
     out = []
     for k in range(n):
         kind = ['subsample', 'subsample', 'timeshift', 'graph'][k % 4]
